@@ -28,6 +28,7 @@ import (
 	"crypto"
 	stded "crypto/ed25519"
 	"fmt"
+	"math/big"
 	"strings"
 	"sync"
 	"testing"
@@ -337,6 +338,30 @@ func c01MatrixCases() []h.EdCase {
 		sg = append(append([]byte(nil), s...), ref.SEncode(ref.SMul(k, a))...)
 		cases = append(cases, h.EdCase{PK: h.Hex(hpk), Msg: h.Hex(msg), Sig: h.Hex(sg), Ctx: h.Hex{},
 			KeyCls: "honest", SigCls: "noncanonR/enum", SCls: "valid", ModCls: "none"})
+	}
+	// S < L boundary with a signature that is valid whenever S is admitted:
+	// A small order (so S = r is free), R = [r]B, S in {r, r+L, r+2L}.  r short
+	// makes r+L share the top words of L; r near L walks the word-wise
+	// comparison from below.
+	two := func(k uint) *big.Int { return new(big.Int).Lsh(big.NewInt(1), k) }
+	sub := func(a *big.Int, d int64) *big.Int { return new(big.Int).Sub(a, big.NewInt(d)) }
+	o0 := new(big.Int).SetUint64(0x5812631a5cf5d3ed)
+	rs := []*big.Int{
+		big.NewInt(1), big.NewInt(2), two(63), sub(two(64), 1), two(64), sub(two(64), -1), two(120), two(124), sub(two(125), 1),
+		two(127), sub(two(128), 1), two(128), two(191), two(192), sub(two(252), 1), two(252), sub(two(252), -1),
+		sub(ref.L, 1), sub(ref.L, 2), new(big.Int).Sub(ref.L, o0), sub(new(big.Int).Sub(ref.L, o0), 1), sub(new(big.Int).Sub(ref.L, o0), -1),
+		new(big.Int).Sub(ref.L, two(64)), sub(new(big.Int).Sub(ref.L, two(64)), -1), new(big.Int).Sub(ref.L, two(124)),
+	}
+	ts := ref.Torsion8()
+	for ri, rv := range rs {
+		A := ts[[]int{0, 1, 4, 2}[ri%4]]
+		Renc := ref.MulBase(rv).Encode()
+		for m := int64(0); m < 3; m++ {
+			S := new(big.Int).Add(rv, new(big.Int).Mul(big.NewInt(m), ref.L))
+			cases = append(cases, h.EdCase{PK: h.Hex(A.Encode()), Msg: h.Hex(msg), Ctx: h.Hex{},
+				Sig:    h.Hex(append(append([]byte(nil), Renc...), ref.ToLE(S, 32)...)),
+				KeyCls: "small/enum", SigCls: "honest", SCls: []string{"valid/enum", "S+L/enum", "S+2L/enum"}[m], ModCls: "none"})
+		}
 	}
 	return cases
 }
